@@ -272,7 +272,7 @@ func runC11(c *Ctx) {
 	for _, r := range rows {
 		if !r.used {
 			c.SetConfig("tables")
-			c.Stale("poolstate:"+r.typ+":"+r.loc)
+			c.Stale("poolstate:" + r.typ + ":" + r.loc)
 		}
 	}
 }
